@@ -19,7 +19,8 @@ from harness.core import Ctx
 
 ID = "C05"
 PROPS_FILE = "AdaptixProofs/Props/C05.lean"
-LEAN_TARGETS = ["AdaptixProofs.Props.C05", "drv_morph"]
+EXTRA_PROPS_FILES = ["AdaptixProofs/Props/C05Layout.lean"]
+LEAN_TARGETS = ["AdaptixProofs.Props.C05", "AdaptixProofs.Props.C05Layout", "drv_morph"]
 EXTRACT = [scalars.emit]
 CLAIM = {
     "technique": "Lean 4 proof (trail exactness and ALL-completeness against an independent fault specification, by fuel "
@@ -29,12 +30,20 @@ CLAIM = {
         "absolute trail of every reported error from the root datum reaches the reported input (dict keys through ItemKey, model "
         "fields through their outer key); DISABLE attaches no trail; FIRST reports exactly one chain; the leaves reported under "
         "ALL are exactly the independently faulty positions of a specification written without the loader's folds. The model's "
-        "error trees are compared node by node with the real exceptions in every mode."
+        "error trees are compared node by node with the real exceptions in every mode. "
+        "Props/C05Layout.lean proves the same for name layouts over C03's construct-by-construct model of the generated model "
+        "loader (`Layout.loadModel`), for every input crown (any nesting of dict and list nodes), all field loaders and data: "
+        "under ALL the children of the AggregateLoadError are a permutation of an independent flag-free specification in which "
+        "every visited dict node reports its own missing required keys and every called failing field loader its error re-based "
+        "by the field's crown path, FIRST raises the first of them, DISABLE the same error with nothing attached, and the crown "
+        "path of every fault leads by plain subscription to the value handed to the loader. "
+        "That this model is the real generated code is C03's correspondence (gen-load / model-load); the count of reports BY "
+        "TRAIL (needs distinct crown keys) is not proved, only the multiset equality with the per-node specification."
     ),
     "note": (
         "Leaves are assumed to report the datum they were given with an empty trail (true of the translated closures: every raise "
         "passes `data`). A failing Union is ONE fault (its sub-errors are alternatives). The fixed-tuple loader reports "
-        "tuple(datum) for arity errors under FIRST/ALL. Renamed/flattened layouts: oracle here, crown-level proofs in C03."
+        "tuple(datum) for arity errors under FIRST/ALL. Renamed/flattened layouts: Props/C05Layout.lean over the C03 layout model + the flattened_multi_fault oracle here."
     ),
     "design_ref": "DESIGN.md §4 C05",
 }
